@@ -37,6 +37,10 @@ func program(seed uint64, shared *nas.Message, ops int) string {
 	var cnt security.Count
 	for i := 0; i < ops; i++ {
 		x := seed*1000003 + uint64(i)*7919
+		if i%2 == 1 {
+			extraOps(x, w)
+			continue
+		}
 		switch x % 9 {
 		case 0: // decode a vector
 			v := append([]byte{}, vectors[int(x/9)%len(vectors)]...)
